@@ -1,142 +1,169 @@
 import ZChain.Model.Round
-/-! Helper lemmas for C37 (core-only): what `locked`/`rlocked` compute, and the invariant of the concurrent
-phase model. -/
+/-! Helper lemmas for C37 (core-only): what the step sequences compute (`step_spec`: an operation either blocks
+without any effect, or returns the answer of its body and applies the body's effect to the data), and which
+fields each body touches. -/
 namespace ZChain.Round
 
 /-- nobody holds `r.mutex` -/
 def Free (s : R) : Prop := s.mutexHeld = false ∧ s.readers = 0
 
-theorem locked_eq {α} (f : R → α × R) (s : R) :
+theorem locked_eq {α} (f : D → α × D) (s : R) :
     locked f s = if s.mutexHeld || s.readers != 0 then .blocked s
-      else .ret (f { s with mutexHeld := true }).1 { (f { s with mutexHeld := true }).2 with mutexHeld := false } := by
+      else .ret (f s.d).1 { d := (f s.d).2, mutexHeld := false, readers := s.readers } := by
   unfold locked M.bind lock
   by_cases h : (s.mutexHeld || s.readers != 0) = true
   · simp [h]
   · simp [h, act, unlock, M.pure]
 
-theorem rlocked_eq {α} (f : R → α × R) (s : R) :
+theorem rlocked_eq {α} (f : D → α × D) (s : R) :
     rlocked f s = if s.mutexHeld then .blocked s
-      else .ret (f { s with readers := s.readers + 1 }).1
-        { (f { s with readers := s.readers + 1 }).2 with readers := (f { s with readers := s.readers + 1 }).2.readers - 1 } := by
+      else .ret (f s.d).1 { d := (f s.d).2, mutexHeld := s.mutexHeld, readers := s.readers + 1 - 1 } := by
   unfold rlocked M.bind rlock
   by_cases h : s.mutexHeld = true
   · simp [h]
   · simp [h, act, runlock, M.pure]
 
-theorem setPhaseF_phase (p : Int) (s : R) : (setPhaseF p s).phase = if p > s.phase then p else s.phase := by
+/-- does `op` block when called in lock state `(mutexHeld, readers)` and data `d`? -/
+def blocks (s : R) (op : Op) : Bool :=
+  match op with
+  | .setSeed _ _ => s.d.seed == 0 && (s.mutexHeld || s.readers != 0)
+  | op => match op.lk with
+    | .none => false
+    | .write => s.mutexHeld || s.readers != 0
+    | .read => s.mutexHeld
+
+def Op.isRestart : Op → Bool
+  | .restart => true
+  | _ => false
+
+/-- **what a call does**: it blocks with no effect at all, or it returns the body's answer, applies the body's
+effect to the data, and leaves the lock state as it found it — except the rejected `Restart` of the unrepaired
+code, which leaves the write lock held. -/
+theorem step_spec (cfg : Cfg) (s : R) (op : Op) :
+    step cfg s op =
+      if blocks s op then (s, none)
+      else ({ d := (op.body s.d).2,
+              mutexHeld := if op.isRestart then decide (s.d.phase ≥ Share) && !cfg.restartUnlocksOnReject else s.mutexHeld,
+              readers := s.readers },
+            some (op.body s.d).1) := by
+  cases op <;>
+    simp only [step, opM, Op.lk, blocks, locked_eq, rlocked_eq, act, Op.body, Op.isRestart] <;>
+    first
+      | (simp; done)
+      | (by_cases h : (s.mutexHeld || s.readers != 0) = true <;> simp_all; done)
+      | (by_cases h : s.mutexHeld = true <;> simp_all; done)
+      | skip
+  · -- Restart
+    by_cases h : (s.mutexHeld || s.readers != 0) = true
+    · simp [restart, M.bind, lock, h]
+    · by_cases hp : s.d.phase ≥ Share
+      · cases hc : cfg.restartUnlocksOnReject <;>
+          simp_all [restart, M.bind, M.pure, lock, unlock, act]
+      · simp_all [restart, M.bind, M.pure, lock, unlock, act]
+  · -- SetRandomSeed
+    by_cases hs : s.d.seed = 0
+    · by_cases h : (s.mutexHeld || s.readers != 0) = true
+      · simp [setSeed, M.bind, lock, h, hs]
+      · simp_all [setSeed, M.bind, M.pure, lock, unlock, act]
+    · simp [setSeed, hs]
+  · -- SetRandomSeedForNotarizedBlock
+    by_cases h : (s.mutexHeld || s.readers != 0) = true
+    · simp [setSeedNB, M.bind, lock, h]
+    · simp_all [setSeedNB, M.bind, M.pure, lock, unlock, act]
+
+theorem setPhaseF_phase (p : Int) (s : D) : (setPhaseF p s).phase = if p > s.phase then p else s.phase := by
   unfold setPhaseF; split <;> rfl
 
-theorem setPhaseF_ge (p : Int) (s : R) : s.phase ≤ (setPhaseF p s).phase := by
+theorem setPhaseF_ge (p : Int) (s : D) : s.phase ≤ (setPhaseF p s).phase := by
   rw [setPhaseF_phase]; split <;> omega
 
-theorem setPhaseF_mutexHeld (p : Int) (s : R) : (setPhaseF p s).mutexHeld = s.mutexHeld := by
+theorem setPhaseF_tcount (p : Int) (s : D) : (setPhaseF p s).tcount = s.tcount := by
   unfold setPhaseF; split <;> rfl
-theorem setPhaseF_readers (p : Int) (s : R) : (setPhaseF p s).readers = s.readers := by
+theorem setPhaseF_fin (p : Int) (s : D) : (setPhaseF p s).fin = s.fin := by
   unfold setPhaseF; split <;> rfl
-theorem setPhaseF_tcount (p : Int) (s : R) : (setPhaseF p s).tcount = s.tcount := by
+theorem setPhaseF_shares (p : Int) (s : D) : (setPhaseF p s).shares = s.shares := by
   unfold setPhaseF; split <;> rfl
-theorem setPhaseF_fin (p : Int) (s : R) : (setPhaseF p s).fin = s.fin := by
+theorem setPhaseF_number (p : Int) (s : D) : (setPhaseF p s).number = s.number := by
   unfold setPhaseF; split <;> rfl
-theorem setPhaseF_shares (p : Int) (s : R) : (setPhaseF p s).shares = s.shares := by
+theorem setPhaseF_cap (p : Int) (s : D) : (setPhaseF p s).cap = s.cap := by
   unfold setPhaseF; split <;> rfl
-theorem setPhaseF_number (p : Int) (s : R) : (setPhaseF p s).number = s.number := by
+theorem setPhaseF_votes (p : Int) (s : D) : (setPhaseF p s).votes = s.votes := by
   unfold setPhaseF; split <;> rfl
-theorem setPhaseF_cap (p : Int) (s : R) : (setPhaseF p s).cap = s.cap := by
+theorem setPhaseF_perm (p : Int) (s : D) : (setPhaseF p s).perm = s.perm := by
   unfold setPhaseF; split <;> rfl
-
-theorem setPhaseF_votes (p : Int) (s : R) : (setPhaseF p s).votes = s.votes := by
-  unfold setPhaseF; split <;> rfl
-theorem setPhaseF_perm (p : Int) (s : R) : (setPhaseF p s).perm = s.perm := by
-  unfold setPhaseF; split <;> rfl
-theorem setPhaseF_self (p : Int) (s : R) : (setPhaseF p s).self = s.self := by
+theorem setPhaseF_self (p : Int) (s : D) : (setPhaseF p s).self = s.self := by
   unfold setPhaseF; split <;> rfl
 
 /-- `addProposedBlock` touches only `proposed` -/
-theorem addProposedF_mutexHeld (b : Blk) (s : R) : (addProposedF b s).mutexHeld = s.mutexHeld := by
+theorem addProposedF_tcount (b : Blk) (s : D) : (addProposedF b s).tcount = s.tcount := by
   unfold addProposedF; split <;> rfl
-theorem addProposedF_readers (b : Blk) (s : R) : (addProposedF b s).readers = s.readers := by
+theorem addProposedF_fin (b : Blk) (s : D) : (addProposedF b s).fin = s.fin := by
   unfold addProposedF; split <;> rfl
-theorem addProposedF_tcount (b : Blk) (s : R) : (addProposedF b s).tcount = s.tcount := by
+theorem addProposedF_shares (b : Blk) (s : D) : (addProposedF b s).shares = s.shares := by
   unfold addProposedF; split <;> rfl
-theorem addProposedF_fin (b : Blk) (s : R) : (addProposedF b s).fin = s.fin := by
+theorem addProposedF_number (b : Blk) (s : D) : (addProposedF b s).number = s.number := by
   unfold addProposedF; split <;> rfl
-theorem addProposedF_shares (b : Blk) (s : R) : (addProposedF b s).shares = s.shares := by
+theorem addProposedF_cap (b : Blk) (s : D) : (addProposedF b s).cap = s.cap := by
   unfold addProposedF; split <;> rfl
-theorem addProposedF_number (b : Blk) (s : R) : (addProposedF b s).number = s.number := by
+theorem addProposedF_phase (b : Blk) (s : D) : (addProposedF b s).phase = s.phase := by
   unfold addProposedF; split <;> rfl
-theorem addProposedF_cap (b : Blk) (s : R) : (addProposedF b s).cap = s.cap := by
+theorem addProposedF_votes (b : Blk) (s : D) : (addProposedF b s).votes = s.votes := by
   unfold addProposedF; split <;> rfl
-theorem addProposedF_phase (b : Blk) (s : R) : (addProposedF b s).phase = s.phase := by
+theorem addProposedF_perm (b : Blk) (s : D) : (addProposedF b s).perm = s.perm := by
   unfold addProposedF; split <;> rfl
-theorem addProposedF_votes (b : Blk) (s : R) : (addProposedF b s).votes = s.votes := by
-  unfold addProposedF; split <;> rfl
-theorem addProposedF_perm (b : Blk) (s : R) : (addProposedF b s).perm = s.perm := by
-  unfold addProposedF; split <;> rfl
-theorem addProposedF_self (b : Blk) (s : R) : (addProposedF b s).self = s.self := by
+theorem addProposedF_self (b : Blk) (s : D) : (addProposedF b s).self = s.self := by
   unfold addProposedF; split <;> rfl
 
 /-- `AddNotarizedBlock` touches `proposed`, `notarized`, `block`, and the phase through `setPhase(Share)` -/
-theorem addNotarizedF_mutexHeld (b : Blk) (s : R) : (addNotarizedF b s).mutexHeld = s.mutexHeld := by
-  unfold addNotarizedF
-  simp only
-  split
-  · exact addProposedF_mutexHeld b s
-  · simp only [setPhaseF_mutexHeld, addProposedF_mutexHeld]
-theorem addNotarizedF_readers (b : Blk) (s : R) : (addNotarizedF b s).readers = s.readers := by
-  unfold addNotarizedF
-  simp only
-  split
-  · exact addProposedF_readers b s
-  · simp only [setPhaseF_readers, addProposedF_readers]
-theorem addNotarizedF_tcount (b : Blk) (s : R) : (addNotarizedF b s).tcount = s.tcount := by
+theorem addNotarizedF_tcount (b : Blk) (s : D) : (addNotarizedF b s).tcount = s.tcount := by
   unfold addNotarizedF
   simp only
   split
   · exact addProposedF_tcount b s
   · simp only [setPhaseF_tcount, addProposedF_tcount]
-theorem addNotarizedF_fin (b : Blk) (s : R) : (addNotarizedF b s).fin = s.fin := by
+theorem addNotarizedF_fin (b : Blk) (s : D) : (addNotarizedF b s).fin = s.fin := by
   unfold addNotarizedF
   simp only
   split
   · exact addProposedF_fin b s
   · simp only [setPhaseF_fin, addProposedF_fin]
-theorem addNotarizedF_shares (b : Blk) (s : R) : (addNotarizedF b s).shares = s.shares := by
+theorem addNotarizedF_shares (b : Blk) (s : D) : (addNotarizedF b s).shares = s.shares := by
   unfold addNotarizedF
   simp only
   split
   · exact addProposedF_shares b s
   · simp only [setPhaseF_shares, addProposedF_shares]
-theorem addNotarizedF_number (b : Blk) (s : R) : (addNotarizedF b s).number = s.number := by
+theorem addNotarizedF_number (b : Blk) (s : D) : (addNotarizedF b s).number = s.number := by
   unfold addNotarizedF
   simp only
   split
   · exact addProposedF_number b s
   · simp only [setPhaseF_number, addProposedF_number]
-theorem addNotarizedF_cap (b : Blk) (s : R) : (addNotarizedF b s).cap = s.cap := by
+theorem addNotarizedF_cap (b : Blk) (s : D) : (addNotarizedF b s).cap = s.cap := by
   unfold addNotarizedF
   simp only
   split
   · exact addProposedF_cap b s
   · simp only [setPhaseF_cap, addProposedF_cap]
-theorem addNotarizedF_votes (b : Blk) (s : R) : (addNotarizedF b s).votes = s.votes := by
+theorem addNotarizedF_votes (b : Blk) (s : D) : (addNotarizedF b s).votes = s.votes := by
   unfold addNotarizedF
   simp only
   split
   · exact addProposedF_votes b s
   · simp only [setPhaseF_votes, addProposedF_votes]
-theorem addNotarizedF_perm (b : Blk) (s : R) : (addNotarizedF b s).perm = s.perm := by
+theorem addNotarizedF_perm (b : Blk) (s : D) : (addNotarizedF b s).perm = s.perm := by
   unfold addNotarizedF
   simp only
   split
   · exact addProposedF_perm b s
   · simp only [setPhaseF_perm, addProposedF_perm]
-theorem addNotarizedF_self (b : Blk) (s : R) : (addNotarizedF b s).self = s.self := by
+theorem addNotarizedF_self (b : Blk) (s : D) : (addNotarizedF b s).self = s.self := by
   unfold addNotarizedF
   simp only
   split
   · exact addProposedF_self b s
   · simp only [setPhaseF_self, addProposedF_self]
-theorem addNotarizedF_phase_ge (b : Blk) (s : R) : s.phase ≤ (addNotarizedF b s).phase := by
+theorem addNotarizedF_phase_ge (b : Blk) (s : D) : s.phase ≤ (addNotarizedF b s).phase := by
   unfold addNotarizedF
   simp only
   split
